@@ -347,13 +347,13 @@ Proof. vm_compute. repeat split. Qed.
 (** known answers (the real crate through `c15 run`; input and implementation output as the harness prints
     them): the exact line of the fourth stream accepts them, they lie in the domain, the statement holds.
     1. artificial mode with a dictionary: text "0c-" + IDEOGRAPHIC SPACE, seed 588579954 -> "0c" ('-' deleted) *)
-Definition ka4_in_1 : val := L [I 4; I 0; I 1; I 588579954; L [I 48; I 99; I 45; I 32; I 12288]; L [L [L [I 99; I 32; I 46; I 32; I 45]; I 4; L [I 0; I 7149018786131516; I (-52)]]; L [L [I 60; I 98; I 111; I 119; I 62; I 32; I 48; I 32; I 99]; I 3; L [I 0; I 6495314627411702; I (-52)]]; L [L [I 101; I 769; I 32; I 191; I 32; I 233]; I 1; L [I 0; I 4503599627370496; I (-52)]]; L [L [I 60; I 98; I 111; I 119; I 62; I 32; I 233; I 32; I 99]; I 3; L [I 0; I 6495314627411702; I (-52)]]; L [L [I 45; I 32; I 837; I 32; I 97]; I 4; L [I 0; I 7149018786131516; I (-52)]]]; L []; L [L [I 0; I 4503599627370496; I (-52)]; L [I 0; I 7995648556387507; I (-59)]; L [I 0; I 5629499534213120; I (-51)]; L [I 0; I 6755399441055744; I (-51)]]; L [L [L [I 48; I 99; I 45]; L []; L [L [L [I 48]; I 0; I 0]; L [L [I 99]; I 1; I 0]; L [L [I 45]; I 0; I 1]]]]].
+Definition ka4_in_1 : val := L [I 4; I 0; I 1; I 588579954; L [I 48; I 99; I 45; I 32; I 12288]; L [L [L [I 99; I 32; I 46; I 32; I 45]; I 4; L [I 0; I 7149018786131516; I (-52)]]; L [L [I 60; I 98; I 111; I 119; I 62; I 32; I 48; I 32; I 99]; I 3; L [I 0; I 6495314627411702; I (-52)]]; L [L [I 101; I 769; I 32; I 191; I 32; I 233]; I 1; L [I 0; I 4503599627370496; I (-52)]]; L [L [I 60; I 98; I 111; I 119; I 62; I 32; I 233; I 32; I 99]; I 3; L [I 0; I 6495314627411702; I (-52)]]; L [L [I 45; I 32; I 837; I 32; I 97]; I 4; L [I 0; I 7149018786131516; I (-52)]]]; L []; L [L [I 0; I 4503599627370496; I (-52)]; L [I 0; I 7995648556387507; I (-59)]; L [I 0; I 5629499534213120; I (-51)]; L [I 0; I 6755399441055744; I (-51)]]; L [L [L [I 48; I 99; I 45]; L []; L [L [L [I 48]; I 0; I 0]; L [L [I 99]; I 1; I 0]; L [L [I 45]; I 0; I 1]]]]; L [L [I 1; I 10000; L [I 0; I 7378697629483821; I (-66)]]; L [I 1; I 3; L [I 0; I 6004799503160661; I (-54)]]; L [I 0; I 0; L [I 2; I 0; I 0]]]].
 Definition ka4_out_1 : val := L [L [L [I 48; I 99]]; L [L [I 48; I 99]]].
 (** 2. mixed mode: text "b\u{e9} \u{3a3}", the second word has the misspellings ["e\u{301}a", "\u{201e}"] -> "b\u{e9} \u{201e}" *)
-Definition ka4_in_2 : val := L [I 4; I 2; I 1; I 752196295; L [I 98; I 233; I 32; I 931]; L [L [L [I 60; I 98; I 111; I 119; I 62; I 32; I 128512; I 32; I 60; I 101; I 111; I 119; I 62]; I 4; L [I 0; I 4503599627370496; I (-50)]]; L [L [I 2325; I 32; I 101; I 769; I 46; I 32; I 99]; I 1; L [I 0; I 4503599627370496; I (-52)]]; L [L [I 99; I 32; I 931; I 32; I 60; I 101; I 111; I 119; I 62]; I 3; L [I 0; I 6755399441055744; I (-51)]]; L [L [I 60; I 98; I 111; I 119; I 62; I 32; I 8222; I 32; I 931]; I 3; L [I 0; I 6755399441055744; I (-51)]]; L [L [I 60; I 98; I 111; I 119; I 62; I 32; I 9786; I 160; I 2325]; I 3; L [I 0; I 6755399441055744; I (-51)]]; L [L [I 110; I 771; I 32; I 36; I 32; I 42958]; I 5; L [I 0; I 5629499534213120; I (-50)]]; L [L [I 60; I 98; I 111; I 119; I 62; I 32; I 8222; I 32; I 9786]; I 3; L [I 0; I 6755399441055744; I (-51)]]; L [L [I 223; I 32; I 189; I 32; I 127465]; I 3; L [I 0; I 6755399441055744; I (-51)]]]; L [L [L [I 98; I 233]; L [L [I 101; I 769; I 8217]; L [I 101; I 769]; L [I 46]]]; L [L [I 931]; L [L [I 101; I 769; I 97]; L [I 8222]]]; L [L [I 837]; L [L [I 45; I 931; I 99]; L [I 48; I 8217; I 178]; L [I 48]]]]; L [L [I 0; I 8106479329266893; I (-53)]; L [I 0; I 8106479329266893; I (-53)]; L [I 0; I 6528281570443264; I (-54)]; L [I 0; I 4503599627370496; I (-52)]]; L [L [L [I 98; I 233]; L [L [I 0; L [I 98; I 233]]]; L [L [L [I 98]; I 1; I 0]; L [L [I 233]; I 1; I 0]]]; L [L [I 931]; L [L [I 0; L [I 931]]]; L [L [L [I 931]; I 1; I 0]]]]].
+Definition ka4_in_2 : val := L [I 4; I 2; I 1; I 752196295; L [I 98; I 233; I 32; I 931]; L [L [L [I 60; I 98; I 111; I 119; I 62; I 32; I 128512; I 32; I 60; I 101; I 111; I 119; I 62]; I 4; L [I 0; I 4503599627370496; I (-50)]]; L [L [I 2325; I 32; I 101; I 769; I 46; I 32; I 99]; I 1; L [I 0; I 4503599627370496; I (-52)]]; L [L [I 99; I 32; I 931; I 32; I 60; I 101; I 111; I 119; I 62]; I 3; L [I 0; I 6755399441055744; I (-51)]]; L [L [I 60; I 98; I 111; I 119; I 62; I 32; I 8222; I 32; I 931]; I 3; L [I 0; I 6755399441055744; I (-51)]]; L [L [I 60; I 98; I 111; I 119; I 62; I 32; I 9786; I 160; I 2325]; I 3; L [I 0; I 6755399441055744; I (-51)]]; L [L [I 110; I 771; I 32; I 36; I 32; I 42958]; I 5; L [I 0; I 5629499534213120; I (-50)]]; L [L [I 60; I 98; I 111; I 119; I 62; I 32; I 8222; I 32; I 9786]; I 3; L [I 0; I 6755399441055744; I (-51)]]; L [L [I 223; I 32; I 189; I 32; I 127465]; I 3; L [I 0; I 6755399441055744; I (-51)]]]; L [L [L [I 98; I 233]; L [L [I 101; I 769; I 8217]; L [I 101; I 769]; L [I 46]]]; L [L [I 931]; L [L [I 101; I 769; I 97]; L [I 8222]]]; L [L [I 837]; L [L [I 45; I 931; I 99]; L [I 48; I 8217; I 178]; L [I 48]]]]; L [L [I 0; I 8106479329266893; I (-53)]; L [I 0; I 8106479329266893; I (-53)]; L [I 0; I 6528281570443264; I (-54)]; L [I 0; I 4503599627370496; I (-52)]]; L [L [L [I 98; I 233]; L [L [I 0; L [I 98; I 233]]]; L [L [L [I 98]; I 1; I 0]; L [L [I 233]; I 1; I 0]]]; L [L [I 931]; L [L [I 0; L [I 931]]]; L [L [L [I 931]; I 1; I 0]]]]; L [L [I 1; I 10000; L [I 0; I 7378697629483821; I (-66)]]; L [I 1; I 3; L [I 0; I 6004799503160661; I (-54)]]; L [I 0; I 0; L [I 2; I 0; I 0]]]].
 Definition ka4_out_2 : val := L [L [L [I 98; I 233; I 32; I 8222]]; L [L [I 98; I 233; I 32; I 8222]]].
 (** 3. artificial mode without a dictionary: "-7a \u{bd}\u{915}\u{201e}" -> the letter KA deleted from the second word *)
-Definition ka4_in_3 : val := L [I 4; I 3; I 0; I 928895310; L [I 45; I 55; I 97; I 32; I 189; I 2325; I 8222]; L []; L []; L [L [I 0; I 8106479329266893; I (-53)]; L [I 0; I 0; I (-1074)]; L [I 0; I 7177491647037440; I (-54)]; L [I 0; I 4503599627370496; I (-51)]]; L [L [L [I 45; I 55; I 97]; L []; L [L [L [I 45]; I 0; I 1]; L [L [I 55]; I 0; I 0]; L [L [I 97]; I 1; I 0]]]; L [L [I 189; I 2325; I 8222]; L [L [I 2; L [I 2325]]]; L [L [L [I 189]; I 0; I 0]; L [L [I 2325]; I 1; I 0]; L [L [I 8222]; I 0; I 1]]]]].
+Definition ka4_in_3 : val := L [I 4; I 3; I 0; I 928895310; L [I 45; I 55; I 97; I 32; I 189; I 2325; I 8222]; L []; L []; L [L [I 0; I 8106479329266893; I (-53)]; L [I 0; I 0; I (-1074)]; L [I 0; I 7177491647037440; I (-54)]; L [I 0; I 4503599627370496; I (-51)]]; L [L [L [I 45; I 55; I 97]; L []; L [L [L [I 45]; I 0; I 1]; L [L [I 55]; I 0; I 0]; L [L [I 97]; I 1; I 0]]]; L [L [I 189; I 2325; I 8222]; L [L [I 2; L [I 2325]]]; L [L [L [I 189]; I 0; I 0]; L [L [I 2325]; I 1; I 0]; L [L [I 8222]; I 0; I 1]]]]; L [L [I 1; I 10000; L [I 0; I 7378697629483821; I (-66)]]; L [I 1; I 3; L [I 0; I 6004799503160661; I (-54)]]; L [I 0; I 0; L [I 2; I 0; I 0]]]].
 Definition ka4_out_3 : val := L [L [L [I 45; I 55; I 97; I 32; I 189; I 8222]]; L [L [I 45; I 55; I 97; I 32; I 189; I 8222]]].
 Example exact4_witness :
   Forall (fun io : val * val => exact_spell4 (fst io) (seeded_spell4 (fst io)) (snd io) = true /\
